@@ -230,6 +230,10 @@ func (tr *Trans) upd(comp, sort, ref, val string) {
 	hv := tr.heapVar(comp, sort)
 	tr.eng.recordWrite(tr.fn, comp)
 	tr.cur.assign(hv, fmt.Sprintf("(store %s %s %s)", cur(hv), ref, val))
+	if gs, ok := tr.eng.ghost["BytesVal"]; ok && comp == "E_uint8" {
+		// the ghost content of a byte array (as a whole value) is forgotten whenever the array is written
+		tr.upd("BytesVal", gs, ref, tr.freshConst("bytes", "Bytes"))
+	}
 }
 
 func (tr *Trans) heapVar(comp, sort string) *MVar {
